@@ -28,6 +28,7 @@ pub fn check(c: &Case, ctx: &mut Ctx) -> Result<(), Failure> {
     let mut near_bound = false;
     let (mut checked, mut skipped) = (0u64, 0u64);
     for i in 0..len {
+        crate::tele::step(&mut ind, &c.cfg);
         let (out, bar) = if c.scalar {
             let x = c.xs[i].0;
             fp.f(x);
@@ -193,6 +194,9 @@ pub fn run(g: &mut Global) {
         &check,
     );
     g.random("random", g.tier.pick(40000, 1000000), &|| strategy(1, 400), &check);
+    // identity events (tele.rs): at one or two steps the instance is replaced by its clone, by a used instance
+    // (same or longer periods) that clone_from()s it, or by its serde round trip; nothing may change
+    g.random("events", g.tier.pick(12000, 200000), &|| crate::tele::wrap(strategy(1, 400)), &|t: &crate::tele::TCase<Case>, ctx: &mut Ctx| crate::tele::check_wrapped(t, ctx, if t.case.scalar { t.case.xs.len() } else { t.case.bars.len() }, t.case.cfg.n(), check));
     // window extremes at every ring phase (hist::extreme_stress): a stale or missed extreme puts %K outside
     // [0, 100] as soon as the price leaves the remembered range
     const XP: [usize; 16] = [2, 3, 5, 8, 31, 64, 65, 100, 127, 128, 129, 200, 256, 257, 511, 1025];
